@@ -402,6 +402,14 @@ inline uint64_t placement_next() { return splitmix64(placement_state()); }
 inline bool &placement_here() { static thread_local bool on = false; return on; }
 // blocks handed out again by the replaced operator new (rt/vrt_alloc.h) at the address of a released one; kept outside the
 // counter map because it is bumped from inside operator new
+// while > 0, every release of an input / object / operator-new block is parked for re-issue (and the count goes down): lets a
+// case say "destroy this, and build the next one of the same size at the same address"
+inline int &placement_force_parks() { static thread_local int n = 0; return n; }
+inline bool placement_park_decision()
+{
+    if (placement_force_parks() > 0) { --placement_force_parks(); return true; }
+    return (placement_next() & 3) == 0;
+}
 inline uint64_t &recycled_new_blocks() { static uint64_t n = 0; return n; }
 
 inline void run_case(const char *name, uint64_t i, const case_fn &fn)
